@@ -45,12 +45,13 @@ structure ImplDelta where
   sflaAmt : Option Rat     -- for sfla rows: total amount
   gen : Bool := false      -- automatically generated SfLA row
   idx : Nat := 0           -- read index of the row (generated rows inherit the sale's)
+  settle : Int := 0        -- settlement date (Julian day)
 
 def parseStatus? (sh all acb : String) : Option Status := do
   some { shares := ← parseRat? sh, all := ← parseRat? all, acb := ← optRat? acb }
 
 def parseImplDelta? : List String → Option ImplDelta
-  | ["impl", "delta", ak, ar, act, psh, pall, pacb, qsh, qall, qacb, gain, sl, sn, sd, so, amt, g, idx] => do
+  | ["impl", "delta", ak, ar, act, psh, pall, pacb, qsh, qall, qacb, gain, sl, sn, sd, so, amt, g, idx, settle] => do
     let af ← parseAff? ak ar
     let pre ← parseStatus? psh pall pacb
     let post ← parseStatus? qsh qall qacb
@@ -58,7 +59,7 @@ def parseImplDelta? : List String → Option ImplDelta
     let sfl ← (if sl == "-" then some none else do
       some (some { loss := ← parseRat? sl, num := ← parseRat? sn, den := ← parseRat? sd, over := parseBool so }))
     let amt ← optRat? amt
-    some { aff := af, act := act, pre := pre, post := post, gain := gain, sfl := sfl, sflaAmt := amt, gen := g == "1", idx := idx.toNat?.getD 0 }
+    some { aff := af, act := act, pre := pre, post := post, gain := gain, sfl := sfl, sflaAmt := amt, gen := g == "1", idx := idx.toNat?.getD 0, settle := (parseInt? settle).getD 0 }
   | _ => none
 
 def statusClose (a b : Status) : Bool :=
